@@ -53,6 +53,7 @@ CLASSES = {
 
 INLINE = ["Structure3D.find_residue"]
 PRUNE_BRANCHES = False
+STABLE_BINDERS = True  # a callee postcondition re-exported unchanged by its caller is the identical term (see engine._quant)
 # BasePair3D.is_canonical (cached_property of a frozen dataclass; reads saenger / lw / the two one-letter names): ASSUMED to be
 # a pure function of the record value - nothing else about it is used (the property speaks of "the canonical input pairs")
 PURE_ATTRS = {"BasePair3D.is_canonical": "bool"}
@@ -262,12 +263,12 @@ class generate_bpseq:
         f"forall(lambda p: implies(0 <= p and p < len({_R}) and {_R}[p].is_nucleotide, exists(lambda x: x in {_M} and {_M}[x] == {_R}[p])))",
         f"forall(lambda x, y: implies(x in {_M} and y in {_M} and x != y, {_M}[x] != {_M}[y]))",
         # "in file order"
-        f"forall(lambda x, y, p, q: implies(x in {_M} and y in {_M} and x < y and 0 <= p and p < len({_R}) and 0 <= q and q < len({_R})"
-        f" and {_R}[p] == {_M}[x] and {_R}[q] == {_M}[y], p < q))",
-        # "plus '?' placeholders where gap detection finds missing residues": exactly gapcount between neighbours, none
-        # before the first and after the last nucleotide
+        f"forall(lambda x, y: implies(x in {_M} and y in {_M} and x < y, exists(lambda p, q: 0 <= p and p < q and q < len({_R})"
+        f" and {_R}[p] == {_M}[x] and {_R}[q] == {_M}[y])))",
+        # "plus '?' placeholders where gap detection finds missing residues": exactly gapcount between neighbours
+        # (trigger: the is_connected term of the two residues - used as a hypothesis the clause does not cascade)
         f"forall(lambda x, y: implies(x in {_M} and y in {_M} and x < y and forall(lambda z: implies(x < z and z < y, not (z in {_M})), pats=['z in {_M}']),"
-        f" y - x - 1 == gapcount(self, {_M}[x], {_M}[y])), pats=[['x in {_M}', 'y in {_M}']])",
+        f" y - x - 1 == gapcount(self, {_M}[x], {_M}[y])), pats=['connected({_M}[x], {_M}[y])'])",
         # no placeholder before the first / after the last nucleotide: a non-empty BPSEQ starts and ends with a numbered residue
         f"implies(len({_E}) >= 1, 1 in {_M} and len({_E}) in {_M})",
         # "takes every pair from the ... input pairs": each pairing joins the residues of some entry of the list
